@@ -1012,6 +1012,15 @@ fn process_items(cx: &mut Ctx, items: Vec<Item>, impl_counter: &mut usize) {
                         || (is_serde && cx.cur_file != "keypair");
                     if dropped {
                         cx.dropped.push(format!("{}: impl {} for {}", cx.cur_src, tn0, ts(&im.self_ty).replace(' ', "")));
+                        // the two generic chunk loops are not extracted (a loop over an opaque iterator); their prelude contracts were written
+                        // for exactly this body text, which is therefore anchored: any other body makes the contract "refused"
+                        if base == "UpdateExt" || base == "MacExt" {
+                            for ii in im.items.iter() {
+                                if let ImplItem::Fn(f) = ii {
+                                    cx.anchors.insert(format!("body:{}::{}::{}", cx.cur_file, base, f.sig.ident), vec![ts(f)]);
+                                }
+                            }
+                        }
                         continue;
                     }
                     if base == "From" && ts(&im.trait_.as_ref().unwrap().1).contains("Infallible") {
